@@ -205,6 +205,22 @@ pub fn unlock_order(g: &GroupRec) -> Vec<Violation> {
 /// others are slow targets.  A second invocation asks for the same slow
 /// targets a little later.
 fn error_exit_case(rng: &mut Rng, seed: u64) -> Case {
+    slow_pair_case(rng, seed, true)
+}
+
+/// The same shape without the error: two invocations that want the same slow
+/// targets, and the process group of one of them is killed while jobs run.
+fn group_kill_case(rng: &mut Rng, seed: u64) -> Case {
+    let mut c = slow_pair_case(rng, seed, false);
+    c.scenario.family = "c06-group-kill".into();
+    let gi = c.scenario.history.len() - 1;
+    // an abort at a drawn moment (^C, timeout(1), a CI cancel): usually while
+    // the first command waits for its scripts
+    c.opts.kill_cmd_at = Some((gi, 0, rng.range(60, 700)));
+    c
+}
+
+fn slow_pair_case(rng: &mut Rng, seed: u64, with_error: bool) -> Case {
     let n = rng.range(1, 3) as usize;
     let mut rules: Vec<(String, Rule)> = Vec::new();
     let mut names = Vec::new();
@@ -231,7 +247,9 @@ fn error_exit_case(rng: &mut Rng, seed: u64) -> Case {
     }
     let mut ts = names.clone();
     let at = rng.range(if n > 1 { 1 } else { 1 }, ts.len() as u64) as usize;
-    ts.insert(at, "s0/x".into());
+    if with_error {
+        ts.insert(at, "s0/x".into());
+    }
     let prog = if rng.chance(1, 2) { "redo" } else { "redo-ifchange" };
     let mut a = redo_cmd(rng, prog, &ts, 1, 200);
     a.argv.retain(|x| !x.starts_with("-j"));
@@ -276,9 +294,10 @@ impl Property for C06 {
         "2-4 top-level redo/redo-ifchange commands (each -j1..4) started together or at a drawn later \
          step on overlapping targets of random graphs -- on a fresh project or, in half of the runs, as a \
          rebuild after a complete build and source edits (checksummed targets, out-of-band re-checks) --, \
-         optionally with one redo process killed mid-build; every eighth scenario: an invocation that \
+         optionally with one redo process, or the process group of one command, killed mid-build; every eighth scenario: an invocation that \
          ends with an internal error (a name below a regular file) while its jobs run, and a later one \
-         asking for the same targets; \
+         asking for the same targets; every eighth: the same two invocations without the error, the \
+         process group of one of them killed while its jobs run; \
          oracle: do-begin..do-end/death intervals of one target never overlap across all processes, and \
          the builder's unlock of the target's lock byte comes after it reaped the script and wrote to the \
          state database; non-trivial = >=1 preemption and >=1 script; distinct = (scenario, preemption \
@@ -287,6 +306,9 @@ impl Property for C06 {
     fn generate(&self, rng: &mut Rng, seed: u64, _tier: Tier, index: u64) -> Case {
         if index % 8 == 7 {
             return error_exit_case(rng, seed);
+        }
+        if index % 8 == 3 {
+            return group_kill_case(rng, seed);
         }
         let mut p = GraphParams::small(rng);
         p.n_targets = rng.range(2, 6) as usize;
@@ -351,7 +373,10 @@ impl Property for C06 {
         };
         if rng.chance(1, 5) {
             let gi = sc.history.len() - 1;
-            opts.kill_at = Some((gi, rng.range(20, 600), false));
+            // one process alone, or (one time in three) the process group of
+            // its command, which is what ^C or timeout(1) signal
+            let group = rng.chance(1, 3);
+            opts.kill_at = Some((gi, rng.range(20, 600), group));
         }
         Case {
             property: "C06".into(),
@@ -385,8 +410,11 @@ impl Property for C06 {
                 .filter(|e| e.text.starts_with("setlkw .redo/locks"))
                 .count() as u64;
             *m.entry("lock_wait_entered".to_string()).or_insert(0) += lw;
-            if g.kill_fired.is_some() {
+            if let Some(k) = &g.kill_fired {
                 *m.entry("redo_killed_mid_build".to_string()).or_insert(0) += 1;
+                if k.starts_with("kill-tree") {
+                    *m.entry("process_group_killed_mid_build".to_string()).or_insert(0) += 1;
+                }
             }
             if g.results.iter().any(|r| r.stderr.contains("Not a directory")) {
                 *m.entry("internal_error_exit".to_string()).or_insert(0) += 1;
